@@ -48,7 +48,6 @@ Theorem C17_map_delivers : forall f s ds,
   (fails s = false -> forall e, final_of r <> SErr e) /\
   no_fuel r.
 Proof. exact map_delivers. Qed.
-Print Assumptions C17_map_delivers.
 
 Theorem C17_map_progress : forall f s ds,
   demands_ok ds -> smeas s < length ds ->
@@ -78,7 +77,6 @@ Theorem C17_filter_delivers : forall p s ds,
   (fails s = false -> forall e, final_of r <> SErr e) /\
   no_fuel r.
 Proof. exact filter_delivers. Qed.
-Print Assumptions C17_filter_delivers.
 
 Theorem C17_filter_progress : forall p s ds,
   demands_ok ds -> smeas s < length ds ->
@@ -108,7 +106,6 @@ Theorem C17_flatmap_delivers : forall f s ds,
   (fails s = false -> forall e, final_of r <> SErr e) /\
   no_fuel r.
 Proof. exact flatmap_delivers. Qed.
-Print Assumptions C17_flatmap_delivers.
 
 Theorem C17_flatmap_progress : forall f s ds,
   demands_ok ds -> smeas s + 1 + length (sem_flatmap f (rows_of s)) < length ds ->
@@ -139,7 +136,6 @@ Theorem C17_head_delivers : forall n s ds,
   ((fails s && (Z.of_nat (length (rows_of s)) <? n)%Z) = false -> forall e, final_of r <> SErr e) /\
   no_fuel r.
 Proof. exact head_delivers. Qed.
-Print Assumptions C17_head_delivers.
 
 Theorem C17_head_progress : forall n s ds,
   demands_ok ds -> smeas s < length ds ->
@@ -169,7 +165,6 @@ Theorem C17_const_delivers : forall data nshard shard ds,
   (false = false -> forall e, final_of r <> SErr e) /\
   no_fuel r.
 Proof. exact const_delivers. Qed.
-Print Assumptions C17_const_delivers.
 
 Theorem C17_const_progress : forall data nshard shard ds,
   demands_ok ds -> length (const_init data nshard shard) < length ds ->
@@ -200,7 +195,6 @@ Theorem C17_multi_delivers_partial : forall q ds,
   (qfails q = false -> forall e, final_of r <> SErr e) /\
   no_fuel r.
 Proof. exact multi_delivers_partial. Qed.
-Print Assumptions C17_multi_delivers_partial.
 
 Theorem C17_multi_progress_partial : forall q ds,
   Forall clean q -> demands_ok ds -> qmeas q < length ds ->
@@ -228,7 +222,6 @@ Theorem C17_frame_delivers : forall rows ds,
   (false = false -> forall e, final_of r <> SErr e) /\
   no_fuel r.
 Proof. exact frame_delivers. Qed.
-Print Assumptions C17_frame_delivers.
 
 Theorem C17_frame_progress : forall rows ds,
   demands_ok ds -> length rows < length ds ->
@@ -250,7 +243,6 @@ Theorem C17_fold_delivers : forall fn s ds,
   (fails s = false -> forall e, final_of r <> SErr e) /\
   no_fuel r.
 Proof. exact fold_delivers. Qed.
-Print Assumptions C17_fold_delivers.
 
 Theorem C17_fold_progress : forall fn s ds,
   demands_ok ds -> length (sem_fold fn (rows_of s)) < length ds ->
@@ -277,7 +269,6 @@ Theorem C17_readerfunc_delivers : forall s ds,
   (fails s = false -> forall e, final_of r <> SErr e) /\
   no_fuel r.
 Proof. exact readerfunc_delivers. Qed.
-Print Assumptions C17_readerfunc_delivers.
 
 Theorem C17_readerfunc_progress : forall s ds,
   demands_ok ds -> smeas s < length ds ->
@@ -299,7 +290,6 @@ Theorem C17_writerfunc_delivers : forall w s ds,
   ((fails s || wf_may w) = false -> forall e, final_of r <> SErr e) /\
   no_fuel r.
 Proof. exact wf_delivers. Qed.
-Print Assumptions C17_writerfunc_delivers.
 
 Theorem C17_writerfunc_progress : forall w s ds,
   demands_ok ds -> smeas s < length ds ->
@@ -317,7 +307,6 @@ Theorem C17_taskbuf_delivers : forall b p ds,
   (false = false -> forall e, final_of r <> SErr e) /\
   no_fuel r.
 Proof. exact taskbuf_delivers. Qed.
-Print Assumptions C17_taskbuf_delivers.
 
 Theorem C17_taskbuf_progress : forall b p ds,
   demands_ok ds -> length (sem_tb b p) < length ds ->
@@ -351,7 +340,6 @@ Theorem C17_decoding_delivers : forall s ds,
   (dec_fails s = false -> forall e, final_of r <> SErr e) /\
   no_fuel r.
 Proof. exact decoding_delivers. Qed.
-Print Assumptions C17_decoding_delivers.
 
 Theorem C17_decoding_progress : forall s ds,
   demands_ok ds -> dmeas s < length ds ->
@@ -376,7 +364,6 @@ Theorem C17_closing_delivers : forall s ds,
   (fails s = false -> forall e, final_of r <> SErr e) /\
   no_fuel r.
 Proof. exact closing_delivers. Qed.
-Print Assumptions C17_closing_delivers.
 
 Theorem C17_closing_progress : forall s ds,
   demands_ok ds -> smeas s < length ds ->
@@ -399,7 +386,6 @@ Theorem C17_scanner_delivers : forall s ds,
   (fails s = false -> forall e, final_of r <> SErr e) /\
   no_fuel r.
 Proof. exact scanner_delivers. Qed.
-Print Assumptions C17_scanner_delivers.
 
 Theorem C17_scanner_progress : forall s ds,
   demands_ok ds -> length (rows_of s) < length ds -> final_of (run scanv_read (sc_init s) ds) <> SOk.
@@ -419,4 +405,64 @@ Theorem C17_scan_rejects_bad_destination : forall st,
   r = None /\ sc_err st' = SErr 4%Z /\ sc_scan st' = (None, st') /\ sc_scan_bad st' = (None, st').
 Proof. exact scan_rejects_bad_destination. Qed.
 Print Assumptions C17_scan_each_once.
-Print Assumptions C17_scan_rejects_bad_destination.
+
+(* every theorem of this file at once: one traversal of the whole dependency cone *)
+Definition C17_all :=
+  (C17_gen_chunk,
+   C17_gen_const_shard,
+   C17_gen_head_literals,
+   C17_gen_taskbuf_literals,
+   C17_gen_multi_literals,
+   C17_map_delivers,
+   C17_map_progress,
+   C17_map_chunking_irrelevant,
+   C17_map_total,
+   C17_filter_delivers,
+   C17_filter_progress,
+   C17_filter_chunking_irrelevant,
+   C17_filter_total,
+   C17_flatmap_delivers,
+   C17_flatmap_progress,
+   C17_flatmap_chunking_irrelevant,
+   C17_flatmap_total,
+   C17_head_delivers,
+   C17_head_progress,
+   C17_head_chunking_irrelevant,
+   C17_head_writes_only_prefix_refuted,
+   C17_const_delivers,
+   C17_const_progress,
+   C17_const_total,
+   C17_multi_delivers_refuted,
+   C17_multi_delivers_partial,
+   C17_multi_progress_partial,
+   C17_multi_chunking_irrelevant_partial,
+   C17_multi_calls_bounded,
+   C17_frame_delivers,
+   C17_frame_progress,
+   C17_frame_total,
+   C17_fold_delivers,
+   C17_fold_progress,
+   C17_fold_chunking_irrelevant,
+   C17_fold_keys_distinct,
+   C17_readerfunc_delivers,
+   C17_readerfunc_progress,
+   C17_readerfunc_error_class,
+   C17_writerfunc_delivers,
+   C17_writerfunc_progress,
+   C17_taskbuf_delivers,
+   C17_taskbuf_progress,
+   C17_taskbuf_total,
+   C17_taskbuf_frames_unchanged,
+   C17_bufout_flatmap_roundtrip,
+   C17_decoding_delivers,
+   C17_decoding_progress,
+   C17_decoding_chunking_irrelevant,
+   C17_closing_delivers,
+   C17_closing_progress,
+   C17_closing_closes_once,
+   C17_scanner_delivers,
+   C17_scanner_progress,
+   C17_scan_each_once,
+   C17_scanreader_all,
+   C17_scan_rejects_bad_destination).
+Print Assumptions C17_all.
